@@ -106,4 +106,15 @@ def writeContract : List Nat → List OutObs → Bool
   | [], _ :: _ => false
   | l :: ls, o :: os => outOK l o && writeContract ls os
 
+/-! ### exclusion class of the one open finding (K15m) -/
+
+/-- the handler writes, copies or flushes and panics afterwards: behind `[recovery, compression]`
+    the recovery middleware's error body then follows a finished compressed stream -/
+def panicMidstream : List Op → Bool
+  | [] => false
+  | .write _ :: os => os.any (fun o => match o with | .panic => true | _ => false)
+  | .copy _ :: os => os.any (fun o => match o with | .panic => true | _ => false)
+  | .flush :: os => os.any (fun o => match o with | .panic => true | _ => false)
+  | _ :: os => panicMidstream os
+
 end Rivaas.CompressSpec
